@@ -218,6 +218,8 @@ cLUMemInit(fact_t fact, void *work, int_t lwork, int m, int n, int_t annz,
 	//nzlmax = SUPERLU_MAX(1, fill_ratio/4.) * annz;
 
 	if ( lwork == -1 ) {
+	    SUPERLU_FREE(Glu->expanders); /* only an estimate is wanted */
+	    Glu->expanders = NULL;
 	    return ( GluIntArray(n) * iword + TempSpace(m, panel_size)
 		    + (nzlmax+nzumax)*iword + (nzlumax+nzumax)*dword + n );
         } else {
@@ -267,6 +269,15 @@ cLUMemInit(fact_t fact, void *work, int_t lwork, int m, int n, int_t annz,
 	    nzlmax /= 2;
 	    if ( nzlumax < annz ) {
 		printf("Not enough memory to perform factorization.\n");
+		if ( Glu->MemModel == SYSTEM ) { /* release what was obtained */
+		    SUPERLU_FREE(xsup);
+		    SUPERLU_FREE(supno);
+		    SUPERLU_FREE(xlsub);
+		    SUPERLU_FREE(xlusup);
+		    SUPERLU_FREE(xusub);
+		}
+		SUPERLU_FREE(Glu->expanders);
+		Glu->expanders = NULL;
 		return (cmemory_usage(nzlmax, nzumax, nzlumax, n) + n);
 	    }
 #if ( PRNTlevel >= 1)
@@ -294,6 +305,8 @@ cLUMemInit(fact_t fact, void *work, int_t lwork, int m, int n, int_t annz,
 	nzlumax  = Glu->nzlumax;
 	
 	if ( lwork == -1 ) {
+	    SUPERLU_FREE(Glu->expanders); /* only an estimate is wanted */
+	    Glu->expanders = NULL;
 	    return ( GluIntArray(n) * iword + TempSpace(m, panel_size)
 		    + (nzlmax+nzumax)*iword + (nzlumax+nzumax)*dword + n );
         } else if ( lwork == 0 ) {
@@ -328,8 +341,24 @@ cLUMemInit(fact_t fact, void *work, int_t lwork, int m, int n, int_t annz,
     Glu->nzlumax = nzlumax;
     
     info = cLUWorkInit(m, n, panel_size, iwork, dwork, Glu);
-    if ( info )
+    if ( info ) {
+	/* Release what this routine obtained; with SamePattern_SameRowPerm
+	   the factor arrays still belong to L and U. */
+	if ( Glu->MemModel == SYSTEM && fact != SamePattern_SameRowPerm ) {
+	    SUPERLU_FREE(lusup);
+	    SUPERLU_FREE(ucol);
+	    SUPERLU_FREE(lsub);
+	    SUPERLU_FREE(usub);
+	    SUPERLU_FREE(xsup);
+	    SUPERLU_FREE(supno);
+	    SUPERLU_FREE(xlsub);
+	    SUPERLU_FREE(xlusup);
+	    SUPERLU_FREE(xusub);
+	}
+	SUPERLU_FREE(Glu->expanders);
+	Glu->expanders = NULL;
 	return ( info + cmemory_usage(nzlmax, nzumax, nzlumax, n) + n);
+    }
     
     ++Glu->num_expansions;
     return 0;
@@ -382,6 +411,7 @@ cLUWorkInit(int m, int n, int panel_size, int **iworkptr,
     }
     if ( ! *dworkptr ) {
 	fprintf(stderr, "malloc fails for local dworkptr[].");
+	if ( Glu->MemModel == SYSTEM ) SUPERLU_FREE(*iworkptr);
 	return (isize + dsize + n);
     }
 	
